@@ -152,6 +152,13 @@ def ids_step(c0: bool, c1: bool, c2: bool, c3: bool, cn: bool, j: int) -> bool:
     env = _world(m, kind, 5, 4, 3)
     ref = _prestate(m, env, r, [c0, c1, c2, c3], spatial)
     probe = IDS + ["ghost", "new"]
+    if hx.P.get('alias'):
+        # the deprecated camelCase entry points denote the same operations
+        import warnings
+        warnings.simplefilter("ignore")
+        add_agent, remove_agent, get_agent = env.addAgent, env.removeAgent, env.getAgent
+    else:
+        add_agent, remove_agent, get_agent = env.add_agent, env.remove_agent, env.get_agent
     target_id = "ghost" if j < 0 else IDS[0] if j == 0 else IDS[1] if j == 1 else IDS[2] if j == 2 else IDS[3]
     if op == 'add':
         new = Agent("new" if j < 0 else target_id, m)
@@ -161,7 +168,7 @@ def ids_step(c0: bool, c1: bool, c2: bool, c3: bool, cn: bool, j: int) -> bool:
         if j >= 0:
             hx.reach('rejected')
             try:
-                env.add_agent(new)
+                add_agent(new)
                 return hx.end(hx.fail("duplicate id accepted", id=new.id))
             except DuplicateAgentError:
                 pass
@@ -169,7 +176,7 @@ def ids_step(c0: bool, c1: bool, c2: bool, c3: bool, cn: bool, j: int) -> bool:
                 return hx.end(False)
         else:
             hx.reach('accepted')
-            env.add_agent(new)
+            add_agent(new)
             ref = ref + [new]
             if spatial and Env.PositionComponent not in new:
                 return hx.end(hx.fail("accepted agent has no position"))
@@ -178,7 +185,7 @@ def ids_step(c0: bool, c1: bool, c2: bool, c3: bool, cn: bool, j: int) -> bool:
         if j < 0:
             hx.reach('rejected')
             try:
-                env.remove_agent(target_id)
+                remove_agent(target_id)
                 return hx.end(hx.fail("unknown id removed"))
             except AgentNotFoundError:
                 pass
@@ -187,7 +194,7 @@ def ids_step(c0: bool, c1: bool, c2: bool, c3: bool, cn: bool, j: int) -> bool:
         else:
             hx.reach('accepted')
             gone = hx.pick(ref, j)
-            env.remove_agent(target_id)             # removing a present agent always succeeds
+            remove_agent(target_id)             # removing a present agent always succeeds
             ref = [a for a in ref if a is not gone]
             if spatial and Env.PositionComponent in gone:
                 return hx.end(hx.fail("leaver keeps its position"))
@@ -196,7 +203,7 @@ def ids_step(c0: bool, c1: bool, c2: bool, c3: bool, cn: bool, j: int) -> bool:
     else:  # lookups never change anything
         snap = _snapshot(m, env, ref)
         if op == 'get':
-            got = env.get_agent(target_id)
+            got = get_agent(target_id)
             exp = None if j < 0 else hx.pick(ref, j)
             hx.reach('accepted' if j >= 0 else 'rejected')
             if got is not exp:
@@ -205,13 +212,13 @@ def ids_step(c0: bool, c1: bool, c2: bool, c3: bool, cn: bool, j: int) -> bool:
             if j < 0:
                 hx.reach('rejected')
                 try:
-                    env.get_agent(target_id, True)
+                    get_agent(target_id, True)
                     return hx.end(hx.fail("strict lookup of unknown id returned"))
                 except AgentNotFoundError:
                     pass
             else:
                 hx.reach('accepted')
-                if env.get_agent(target_id, True) is not hx.pick(ref, j):
+                if get_agent(target_id, True) is not hx.pick(ref, j):
                     return hx.end(hx.fail("strict get_agent", id=target_id))
         if _unchanged(m, env, snap) is not True:
             return hx.end(False)
@@ -447,6 +454,7 @@ def obligations(tier):
     senc = enc + (Env.SpaceWorld.add_agent, Env.SpaceWorld.remove_agent)
     parts = [{"r": r, "op": op, "world": "plain"} for r in (0, 2, 4) for op in ("add", "remove", "get", "get_strict")]
     parts += [{"r": 3, "op": op, "world": w} for w in ("space", "grid") for op in ("add", "remove")]
+    parts += [{"r": 2, "op": op, "world": w, "alias": True} for w in ("plain", "space") for op in ("add", "remove", "get", "get_strict")]
     if tier != "quick":
         parts += [{"r": r, "op": op, "world": "plain"} for r in (1, 3) for op in ("add", "remove", "get", "get_strict")]
         parts += [{"r": 2, "op": op, "world": w} for w in ("line", "discrete", "gridlike") for op in ("add", "remove")]
